@@ -150,6 +150,8 @@ def run_contracts(ctx, contracts, registry, workloads=(), concrete_env=None, mon
     import os
 
     timeout = 60000 if ctx.thorough else 12000
+    if os.environ.get("VERIF_FORCE_TIMEOUT_MS"):          # (debug only: exercises the ledger-cache fallback; never set by a registered command)
+        timeout = int(os.environ["VERIF_FORCE_TIMEOUT_MS"])
     ctx.dropped = [DROPPED]
     ledger = load_ledger()
     updating = bool(os.environ.get("VERIF_UPDATE_LEDGER"))
